@@ -8,45 +8,80 @@ Open Scope N_scope.
    valid credential establishing exactly that user and level ([proves] is the specification:
    trusted untampered unexpired session token of this issuer; or a verified password; or a
    verified certificate chain to a keymaster key that is not the role CA's, with a key that is
-   not deny-listed; or an IP-restricted automation certificate whose TCP peer lies in its
-   blocks), the level shares a bit with the mask the endpoint passed, and unless the method is
-   GET the Origin/Referer did not name another site.  All clocks, masks, limiter states,
-   credentials, chain lists. *)
-Theorem c06_gate_sound : forall now lim required q u l iat,
-  check_auth now lim required q = Admit u l iat ->
-  proves now q u l /\ hasb l required = true /\ (q_meth q <> GET -> origin_ok q).
+   at no position of the deny list; or an IP-restricted automation certificate whose TCP peer
+   lies in its blocks), the level shares a bit with the mask the endpoint passed, and unless the
+   method is GET the Origin/Referer did not name another site.  All clocks, masks, limiter
+   states, deny lists of any length, chain lists, and every COMBINATION of credentials a request
+   can carry at once (client certificate x auth_cookie x basic-auth header, each present or
+   absent, valid or not). *)
+Theorem c06_gate_sound : forall now lim deny required q u l iat,
+  check_auth now lim deny required q = Admit u l iat ->
+  proves now deny q u l /\ hasb l required = true /\ (q_meth q <> GET -> origin_ok q).
 Proof. exact gate_sound. Qed.
 Print Assumptions c06_gate_sound.
 
 (* The identity, level and issue instant are exactly what the presented credential establishes:
-   subject / level / iat of the session token; the password user at level Password; or the
-   common name of the verified leaf with exactly the bits its chain and its address extension
-   justify. *)
-Theorem c06_identity_real : forall now lim required q u l iat,
-  check_auth now lim required q = Admit u l iat -> established now required q u l iat.
+   subject / level / iat of the session token; the password user at level Password (only when the
+   request carries no auth_cookie); or the common name of the verified leaf with exactly the bits
+   its chain and its address extension justify. *)
+Theorem c06_identity_real : forall now lim deny required q u l iat,
+  check_auth now lim deny required q = Admit u l iat -> established now deny required q u l iat.
 Proof. exact identity_real. Qed.
 Print Assumptions c06_identity_real.
 
-(* a deny-listed key never yields the keymaster-certificate bit, an IP-restricted certificate
-   presented from outside its netblocks never yields the IP-certificate bit (if such a bit is in
-   the level let in, it came from a valid session token) *)
-Theorem c06_never_denied : forall now lim required q u l iat c,
-  check_auth now lim required q = Admit u l iat -> q_tls q = Some c -> x_denied c = true ->
-  hasb l bKMX509 = true -> exists t, q_cred q = Cookie t /\ valid_cookie now t /\ l = t_level t.
+(* a deny-listed key — the list has any length, the key sits at any position, duplicates or not —
+   never yields the keymaster-certificate bit, an IP-restricted certificate presented from outside
+   its netblocks never yields the IP-certificate bit (if such a bit is in the level let in, it
+   came from a valid session token) *)
+Theorem c06_never_denied : forall now lim deny required q u l iat c,
+  check_auth now lim deny required q = Admit u l iat -> q_tls q = Some c -> In (x_key c) deny ->
+  hasb l bKMX509 = true -> exists t, k_cookie (q_cred q) = Some t /\ valid_cookie now t /\ l = t_level t.
 Proof. exact never_denied. Qed.
 Print Assumptions c06_never_denied.
 
-Theorem c06_never_outside : forall now lim required q u l iat c,
-  check_auth now lim required q = Admit u l iat -> q_tls q = Some c -> x_ip_valid c = false ->
-  hasb l bIPCert = true -> exists t, q_cred q = Cookie t /\ valid_cookie now t /\ l = t_level t.
+(* position by position: a request without auth_cookie let in with the keymaster-certificate bit
+   presents a key that is at NO index of the deny list *)
+Theorem c06_deny_no_position : forall now lim deny required q u l iat c,
+  check_auth now lim deny required q = Admit u l iat -> q_tls q = Some c -> k_cookie (q_cred q) = None ->
+  hasb l bKMX509 = true -> forall i, nth_error deny i <> Some (x_key c).
+Proof. exact deny_no_position. Qed.
+Print Assumptions c06_deny_no_position.
+
+Theorem c06_never_outside : forall now lim deny required q u l iat c,
+  check_auth now lim deny required q = Admit u l iat -> q_tls q = Some c -> x_ip_valid c = false ->
+  hasb l bIPCert = true -> exists t, k_cookie (q_cred q) = Some t /\ valid_cookie now t /\ l = t_level t.
 Proof. exact never_outside. Qed.
 Print Assumptions c06_never_outside.
 
+(* credential combinations: the password of a basic-auth header counts only when the request has
+   no auth_cookie at all AND the endpoint's mask has the password bit.  With a cookie present
+   (valid, stale, of another kind, junk) or a mask without the password bit, whoever is let in
+   is the subject of a valid cookie or the holder of a certificate. *)
+Theorem c06_basic_only_without_cookie : forall now lim deny required q u l iat,
+  check_auth now lim deny required q = Admit u l iat ->
+  (exists t, k_cookie (q_cred q) = Some t) \/ hasb required bPassword = false ->
+  (exists t, k_cookie (q_cred q) = Some t /\ valid_cookie now t /\ u = t_sub t /\ l = t_level t) \/
+  (exists c, q_tls q = Some c /\ u = x_cn c /\ hasb l (N.lor bKMX509 bIPCert) = true).
+Proof. exact basic_only_without_cookie. Qed.
+Print Assumptions c06_basic_only_without_cookie.
+
+(* configuration dimension: for EVERY list of web-UI backends that does not name `password`,
+   an endpoint that passes getRequiredWebUIAuthLevel() lets in nobody but the subject of a valid
+   session cookie whose level has a bit of that list — whatever certificate, basic-auth header or
+   further material the request carries *)
+Theorem c06_webui_without_password : forall now lim deny backends q u l iat,
+  ~ In BPassword backends ->
+  check_auth now lim deny (webui_level backends) q = Admit u l iat ->
+  exists t, k_cookie (q_cred q) = Some t /\ valid_cookie now t /\ u = t_sub t /\ l = t_level t /\
+            hasb (t_level t) (webui_level backends) = true.
+Proof. exact webui_without_password. Qed.
+Print Assumptions c06_webui_without_password.
+
 (* a non-GET request whose Origin/Referer names another site (or does not parse) is refused,
    for every credential, mask and clock — also by the two older variants of the gate *)
-Theorem c06_csrf : forall sr mt now lim required q,
+Theorem c06_csrf : forall sr mt now lim deny required q,
   q_meth q <> GET -> (q_origin q = CrossOrigin \/ q_origin q = BadOrigin) ->
-  exists code, check_auth_gen sr mt now lim required q = Refuse code.
+  exists code, check_auth_gen sr mt now lim deny required q = Refuse code.
 Proof. exact csrf_refused. Qed.
 Print Assumptions c06_csrf.
 
@@ -87,11 +122,12 @@ Qed.
 Print Assumptions c06_csrf_nonget.
 
 (* the full form is false of the current tree (finding F15): these are exactly the routes whose
-   state-changing effect a cross-site GET carrying the victim's session reaches *)
+   state-changing effect a cross-site GET carrying the victim's session reaches (ten since the
+   registration-finish handlers insist on POST, 6ebb558) *)
 Theorem c06_get_state_changers :
   get_state_changers =
-  ["runtimeState.u2fRegisterRequest"; "runtimeState.u2fRegisterResponse"; "runtimeState.u2fSignRequest";
-   "runtimeState.webauthnBeginRegistration"; "runtimeState.webauthnFinishRegistration";
+  ["runtimeState.u2fRegisterRequest"; "runtimeState.u2fSignRequest";
+   "runtimeState.webauthnBeginRegistration";
    "runtimeState.webauthnAuthLogin"; "runtimeState.webauthnAuthFinish"; "runtimeState.vipPushStartHandler";
    "runtimeState.GenerateNewTOTP"; "runtimeState.oktaPushStartHandler"; "runtimeState.oktaPollCheckHandler";
    "runtimeState.BootstrapOtpAuthHandler"]%string.
@@ -102,10 +138,10 @@ Definition good_token (u l : N) : token :=
   {| t_signer_trusted := true; t_alg_allowed := true; t_tampered := false; t_iss_ok := true;
      t_aud_ok := true; t_kind := 0; t_nbf := 0%Z; t_exp := 1000%Z; t_iat := 0%Z; t_sub := u; t_level := l |}.
 Definition env0 : envx :=
-  {| e_now := 100%Z; e_limiter := true; e_webui := N.lor bU2F bTOTP; e_admin := fun u => u =? 3;
+  {| e_now := 100%Z; e_limiter := true; e_webui := N.lor bU2F bTOTP; e_deny := [7]; e_admin := fun u => u =? 3;
      e_autoadmin := fun u => u =? 3; e_target := 1; e_own := false; e_check := true |}.
 Definition cross_get (u l : N) : reqx :=
-  {| q_meth := GET; q_origin := CrossOrigin; q_tls := None; q_cred := Cookie (good_token u l) |}.
+  {| q_meth := GET; q_origin := CrossOrigin; q_tls := None; q_cred := cookie_only (good_token u l) |}.
 
 Theorem c06_get_effects_refuted :
   exists r env q e, In r route_table /\ q_origin q = CrossOrigin /\
@@ -125,42 +161,87 @@ Theorem c06_old_manage_refuted :
 Proof. exists env0, (cross_get 1 bU2F), EChange. vm_compute. tauto. Qed.
 Print Assumptions c06_old_manage_refuted.
 
+(* the two registration-finish handlers before 6ebb558: a GET carrying the token's answer, a foreign
+   Referer and the victim's session stored a new hardware token *)
+Theorem c06_old_register_finish_refuted :
+  exists env q e, q_origin q = CrossOrigin /\ In e (snd (run env q register_finish_old_steps None)) /\
+                  state_changing e = true /\ csrf_safe register_finish_old_steps = false.
+Proof. exists env0, (cross_get 1 bU2F), EChange. vm_compute. tauto. Qed.
+Print Assumptions c06_old_register_finish_refuted.
+
 (* the certificate branch before the two repairs: (a) chains issued by the role CA counted as
    plain keymaster certificates (an automation certificate outside its netblocks was let in
    although nothing [proves] it); (b) the branch result was returned without testing it against
    the mask (a plain user certificate was let in where only IP certificates are taken) *)
 Theorem c06_old_tls_refuted :
-  (exists now lim required q u l iat,
-     check_auth_gen false true now lim required q = Admit u l iat /\ ~ proves now q u l) /\
-  (exists now lim required q u l iat,
-     check_auth_gen true false now lim required q = Admit u l iat /\ hasb l required = false).
+  (exists now lim deny required q u l iat,
+     check_auth_gen false true now lim deny required q = Admit u l iat /\ ~ proves now deny q u l) /\
+  (exists now lim deny required q u l iat,
+     check_auth_gen true false now lim deny required q = Admit u l iat /\ hasb l required = false).
 Proof. split; [exact old_role_refuted|exact old_mask_refuted]. Qed.
 Print Assumptions c06_old_tls_refuted.
 
 (* ---- non-vacuity ---- *)
 Definition inside_cert : tlsx :=
-  {| x_chains := [role_chain]; x_cn := 4; x_denied := false; x_nb := 0%Z; x_ip_error := false;
+  {| x_chains := [role_chain]; x_cn := 4; x_key := 1; x_nb := 0%Z; x_ip_error := false;
      x_ip_valid := true; x_auto_error := false; x_automation := true; x_revoked := false |}.
-Definition denied_cert : tlsx :=
-  {| x_chains := [main_chain]; x_cn := 1; x_denied := true; x_nb := 0%Z; x_ip_error := false;
+(* alice's certificate over the key with fingerprint 9 *)
+Definition key9_cert : tlsx :=
+  {| x_chains := [main_chain]; x_cn := 1; x_key := 9; x_nb := 0%Z; x_ip_error := false;
      x_ip_valid := false; x_auto_error := false; x_automation := false; x_revoked := false |}.
 Definition same_post (u l : N) : reqx :=
-  {| q_meth := POST; q_origin := SameOrigin; q_tls := None; q_cred := Cookie (good_token u l) |}.
+  {| q_meth := POST; q_origin := SameOrigin; q_tls := None; q_cred := cookie_only (good_token u l) |}.
 Definition cross_post (u l : N) : reqx :=
-  {| q_meth := POST; q_origin := CrossOrigin; q_tls := None; q_cred := Cookie (good_token u l) |}.
+  {| q_meth := POST; q_origin := CrossOrigin; q_tls := None; q_cred := cookie_only (good_token u l) |}.
+Definition junk_token : token :=
+  {| t_signer_trusted := false; t_alg_allowed := false; t_tampered := true; t_iss_ok := false;
+     t_aud_ok := false; t_kind := 0; t_nbf := 0%Z; t_exp := 0%Z; t_iat := 0%Z; t_sub := 0; t_level := 0 |}.
+Definition good_basic : option basicx := Some {| b_user := 1; b_ok := true; b_err := false |}.
+Definition combo (t : option token) (b : option basicx) (c : option tlsx) : reqx :=
+  {| q_meth := GET; q_origin := NoOrigin; q_tls := c; q_cred := {| k_cookie := t; k_basic := b |} |}.
 
 Example c06_nonvacuous_gate :
-  check_auth 100 true (N.lor bU2F bTOTP) (same_post 1 (N.lor bPassword bU2F)) = Admit 1 (N.lor bPassword bU2F) 0 /\
-  check_auth 100 true (N.lor bU2F bTOTP) (same_post 1 bPassword) = Refuse 401 /\
-  check_auth 100 true (N.lor bU2F bTOTP) (cross_post 1 (N.lor bPassword bU2F)) = Refuse 401 /\
-  check_auth 1001 true (N.lor bU2F bTOTP) (same_post 1 (N.lor bPassword bU2F)) = Refuse 401 /\
-  check_auth 100 true (N.lor bU2F bKMX509) (with_cert POST user_cert) = Admit 1 bKMX509 0 /\
-  check_auth 100 true bIPCert (with_cert POST user_cert) = Refuse 401 /\
-  check_auth 100 true (N.lor bU2F bKMX509) (with_cert POST denied_cert) = Refuse 401 /\
-  check_auth 100 true bIPCert (with_cert POST inside_cert) = Admit 4 bIPCert 100 /\
-  check_auth 100 true bIPCert (with_cert POST outside_cert) = Refuse 403 /\
-  check_auth 100 true bAny (with_cert POST outside_cert) = Refuse 403 /\
-  check_auth 100 true (N.lor bU2F bKMX509) (with_cert POST outside_cert) = Refuse 401.
+  let d := [7] in
+  check_auth 100 true d (N.lor bU2F bTOTP) (same_post 1 (N.lor bPassword bU2F)) = Admit 1 (N.lor bPassword bU2F) 0 /\
+  check_auth 100 true d (N.lor bU2F bTOTP) (same_post 1 bPassword) = Refuse 401 /\
+  check_auth 100 true d (N.lor bU2F bTOTP) (cross_post 1 (N.lor bPassword bU2F)) = Refuse 401 /\
+  check_auth 1001 true d (N.lor bU2F bTOTP) (same_post 1 (N.lor bPassword bU2F)) = Refuse 401 /\
+  check_auth 100 true d (N.lor bU2F bKMX509) (with_cert POST user_cert) = Admit 1 bKMX509 0 /\
+  check_auth 100 true d bIPCert (with_cert POST user_cert) = Refuse 401 /\
+  check_auth 100 true d bIPCert (with_cert POST inside_cert) = Admit 4 bIPCert 100 /\
+  check_auth 100 true d bIPCert (with_cert POST outside_cert) = Refuse 403 /\
+  check_auth 100 true d bAny (with_cert POST outside_cert) = Refuse 403 /\
+  check_auth 100 true d (N.lor bU2F bKMX509) (with_cert POST outside_cert) = Refuse 401.
+Proof. vm_compute. repeat split; reflexivity. Qed.
+
+(* deny lists: every position counts, whatever the length *)
+Example c06_nonvacuous_deny :
+  let m := N.lor bU2F bKMX509 in
+  check_auth 100 true [] m (with_cert POST key9_cert) = Admit 1 bKMX509 0 /\
+  check_auth 100 true [7; 8] m (with_cert POST key9_cert) = Admit 1 bKMX509 0 /\
+  check_auth 100 true [9] m (with_cert POST key9_cert) = Refuse 401 /\
+  check_auth 100 true [9; 7] m (with_cert POST key9_cert) = Refuse 401 /\
+  check_auth 100 true [7; 9] m (with_cert POST key9_cert) = Refuse 401 /\
+  check_auth 100 true [7; 9; 8] m (with_cert POST key9_cert) = Refuse 401 /\
+  check_auth 100 true [9; 7; 8; 6] m (with_cert POST key9_cert) = Refuse 401 /\
+  check_auth 100 true [7; 9; 9; 8] m (with_cert POST key9_cert) = Refuse 401.
+Proof. vm_compute. repeat split; reflexivity. Qed.
+
+(* combinations: a password never stands in for a cookie that does not verify, and never counts
+   where the mask has no password bit; the certificate comes first; a valid cookie wins over the
+   basic-auth header *)
+Example c06_nonvacuous_combinations :
+  let u2f := webui_level [BU2F] in let pw := webui_level [BPassword; BU2F] in
+  check_auth 100 true [] pw (combo None good_basic None) = Admit 1 bPassword 100 /\
+  check_auth 100 true [] u2f (combo None good_basic None) = Refuse 401 /\
+  check_auth 100 true [] u2f (combo (Some junk_token) good_basic None) = Refuse 401 /\
+  check_auth 100 true [] pw (combo (Some junk_token) good_basic None) = Refuse 401 /\
+  check_auth 1001 true [] pw (combo (Some (good_token 2 bU2F)) good_basic None) = Refuse 401 /\
+  check_auth 100 true [] pw (combo (Some (good_token 2 bU2F)) good_basic None) = Admit 2 bU2F 0 /\
+  check_auth 100 true [] (N.lor pw bKMX509) (combo (Some (good_token 2 bU2F)) good_basic (Some user_cert)) = Admit 1 bKMX509 0 /\
+  check_auth 100 true [1] (N.lor pw bKMX509) (combo (Some (good_token 2 bU2F)) good_basic (Some user_cert)) = Admit 2 bU2F 0 /\
+  check_auth 100 true [1] (N.lor pw bKMX509) (combo None good_basic (Some user_cert)) = Admit 1 bPassword 100 /\
+  check_auth 100 true [1] (N.lor u2f bKMX509) (combo (Some junk_token) good_basic (Some user_cert)) = Refuse 401.
 Proof. vm_compute. repeat split; reflexivity. Qed.
 
 Example c06_nonvacuous_routes :
